@@ -61,7 +61,7 @@ def propagate : Nat → List Clause → PA → Bool
 
 /-- `c` is confirmed by reverse unit propagation from `db` -/
 def rupCheck (fuel : Nat) (db : List Clause) (c : Clause) : Bool :=
-  propagate fuel db (c.map Lit.not)
+  c.any (fun l => c.contains l.not) || propagate fuel db (c.map Lit.not)
 
 /-- a total assignment given as list of true literals satisfies clause `c` -/
 def modelSat (m : List Lit) (c : Clause) : Bool := c.any (fun l => m.contains l)
